@@ -380,6 +380,10 @@ func (s *UtxoStore) removeRelevantCredit(tx mwdb.DBTransaction,
 		if _, ok := scriptHashSet[string(cred.scriptHash)]; ok {
 
 			hgt, exist := heightOfTx[cred.outPoint.Hash]
+			if simRemoveRound > 0 && count >= simRemoveRound {
+				finish = false
+				break
+			}
 			if count >= 20000 || (exist && hgt != cred.block.Height) {
 				finish = false
 				break
